@@ -138,10 +138,13 @@ func vC25_dispatch_serialize() {
 func vC25_dispatch_roundtrip() {
 	entries, p, c, j := vC25_entries()
 	d := newSerializerDispatch(entries)
-	kind := vCase("kind")
+	// (value kind, producing serializer): the five matching pairs and two mismatches
+	combos := [7][2]int{{0, 0}, {1, 1}, {1, 2}, {2, 1}, {2, 2}, {0, 1}, {1, 0}}
+	combo := combos[vCase("combo")]
+	kind := combo[0]
 	m, payload := vC25_message(kind)
 	var x remote.Serializer = p
-	switch vCase("producer") {
+	switch combo[1] {
 	case 1:
 		x = c
 	case 2:
